@@ -1,10 +1,752 @@
 package main
 
+// Replay of solver counterexamples on the real code: the entry state of the
+// failing function is read back from the model (through get-value style
+// equalities), rebuilt with in-package Go code, the real function is run
+// through `go test -overlay` (nothing is written to the repository) and the
+// contract clauses, compiled from the contract text to Go, are evaluated.
+
+import (
+	"bytes"
+	"context"
+	"encoding/json"
+	"fmt"
+	"go/types"
+	"math/big"
+	"os"
+	"os/exec"
+	"path/filepath"
+	"sort"
+	"strings"
+	"time"
+
+	"golang.org/x/tools/go/ssa"
+)
+
 type replayResult struct {
 	Confirmed bool
 	Text      string
 }
 
-func tryReplay(eng *Engine, rep *obReport, dir string) replayResult {
-	return replayResult{false, "not attempted (no replay harness for this function shape)"}
+const replayElems = 48
+
+type gvReq struct {
+	name string
+	term *Term
 }
+
+type replayBuilder struct {
+	x     *FnCtx
+	eng   *Engine
+	reqs  []gvReq
+	vals  map[string]string
+	pkg   *types.Package
+	decl  strings.Builder
+	nvar  int
+	ok    bool
+	why   string
+}
+
+func (b *replayBuilder) want(name string, t *Term) string {
+	b.reqs = append(b.reqs, gvReq{name, t})
+	return name
+}
+
+func parseSMTInt(v string) (*big.Int, bool) {
+	v = strings.TrimSpace(v)
+	if strings.HasPrefix(v, "#x") {
+		n, ok := new(big.Int).SetString(v[2:], 16)
+		return n, ok
+	}
+	if strings.HasPrefix(v, "#b") {
+		n, ok := new(big.Int).SetString(v[2:], 2)
+		return n, ok
+	}
+	if strings.HasPrefix(v, "( - ") || strings.HasPrefix(v, "(- ") {
+		inner := strings.TrimSuffix(strings.TrimPrefix(strings.TrimPrefix(v, "( - "), "(- "), ")")
+		n, ok := new(big.Int).SetString(strings.TrimSpace(inner), 10)
+		if ok {
+			n.Neg(n)
+		}
+		return n, ok
+	}
+	if strings.HasPrefix(v, "( _ bv") || strings.HasPrefix(v, "(_ bv") {
+		f := strings.Fields(strings.Trim(v, "()"))
+		if len(f) >= 2 {
+			n, ok := new(big.Int).SetString(strings.TrimPrefix(f[1], "bv"), 10)
+			return n, ok
+		}
+	}
+	n, ok := new(big.Int).SetString(v, 10)
+	return n, ok
+}
+
+func (b *replayBuilder) intVal(name string, t types.Type) (*big.Int, bool) {
+	v, ok := b.vals[name]
+	if !ok {
+		return nil, false
+	}
+	n, ok := parseSMTInt(v)
+	if !ok {
+		return nil, false
+	}
+	if w, s, isI := intInfo(t); isI && s && n.Sign() >= 0 && n.BitLen() == w {
+		n = toSigned(n, w) // bit-vector models print unsigned
+	}
+	return n, true
+}
+
+func typeStr(t types.Type, pkg *types.Package) string {
+	return types.TypeString(t, func(p *types.Package) string {
+		if p == pkg {
+			return ""
+		}
+		return p.Name()
+	})
+}
+
+// phase 1: register the terms whose values are needed; phase 2 (vals set): emit Go code.
+// The same traversal is used for both, driven by b.vals == nil.
+
+func (b *replayBuilder) scalarExpr(key string, t *Term, ty types.Type) string {
+	if b.vals == nil {
+		b.want(key, t)
+		return ""
+	}
+	if isBool(ty) {
+		if b.vals[key] == "true" {
+			return "true"
+		}
+		return "false"
+	}
+	if _, _, ok := intInfo(ty); ok {
+		n, ok := b.intVal(key, ty)
+		if !ok {
+			return "0"
+		}
+		return fmt.Sprintf("%s(%s)", typeStr(ty, b.pkg), n.String())
+	}
+	return ""
+}
+
+func (b *replayBuilder) sliceExpr(key string, sv SliceV, ty types.Type, h *Heap) string {
+	x := b.x
+	et := ty.Underlying().(*types.Slice).Elem()
+	if _, _, ok := intInfo(et); !ok {
+		if b.vals == nil {
+			b.want(key+".len", x.toInt(sv.Len))
+			return ""
+		}
+		n, ok := b.intVal(key+".len", types.Typ[types.Int])
+		if !ok || n.Sign() < 0 || n.Cmp(big.NewInt(1<<16)) > 0 {
+			return "nil"
+		}
+		return fmt.Sprintf("make(%s, %s)", typeStr(ty, b.pkg), n)
+	}
+	m := x.heapGet(h, "E."+elemKey(et), x.contentsSort(et))
+	if b.vals == nil {
+		b.want(key+".len", x.toInt(sv.Len))
+		b.want(key+".arr", sv.Arr)
+		for i := 0; i < replayElems; i++ {
+			b.want(fmt.Sprintf("%s.e%d", key, i), x.sel(x.sel(m, sv.Arr), x.iadd(sv.Off, x.idx(int64(i)))))
+		}
+		return ""
+	}
+	n, ok := b.intVal(key+".len", types.Typ[types.Int])
+	arr, ok2 := b.intVal(key+".arr", types.Typ[types.Int])
+	if !ok || !ok2 || n.Sign() < 0 {
+		return "nil"
+	}
+	if arr.Sign() == 0 {
+		return "nil"
+	}
+	if n.Cmp(big.NewInt(1<<22)) > 0 {
+		b.ok = false
+		b.why = "model needs a slice of " + n.String() + " elements"
+		return "nil"
+	}
+	var es []string
+	for i := 0; i < replayElems && int64(i) < n.Int64(); i++ {
+		v, ok := b.intVal(fmt.Sprintf("%s.e%d", key, i), et)
+		if !ok {
+			v = big.NewInt(0)
+		}
+		es = append(es, v.String())
+	}
+	b.nvar++
+	name := fmt.Sprintf("s%d", b.nvar)
+	fmt.Fprintf(&b.decl, "\t%s := make(%s, %s)\n\tcopy(%s, %s{%s})\n", name, typeStr(ty, b.pkg), n, name, typeStr(ty, b.pkg), strings.Join(es, ", "))
+	return name
+}
+
+// structInit emits assignments initialising the fields of the Go expression `lhs` (a struct value)
+// from the model object at ref.
+func (b *replayBuilder) structInit(key, lhs string, ref *Term, st types.Type, h *Heap, depth int) {
+	x := b.x
+	l := layoutOf(st)
+	for i := range l.Fields {
+		fi := &l.Fields[i]
+		fkey := key + "." + fi.Name
+		flhs := lhs + "." + fi.Name
+		if fi.Name == "_" {
+			continue
+		}
+		switch u := fi.T.Underlying().(type) {
+		case *types.Struct:
+			b.structInit(fkey, flhs, x.refAdd(ref, fi.Off), fi.T, h, depth)
+		case *types.Slice:
+			sv, _ := x.loadField(h, ref, fi).(SliceV)
+			e := b.sliceExpr(fkey, sv, fi.T, h)
+			if b.vals != nil && e != "" {
+				fmt.Fprintf(&b.decl, "\t%s = %s\n", flhs, e)
+			}
+		case *types.Array:
+			if _, _, ok := intInfo(u.Elem()); ok && u.Len() <= replayElems {
+				arr, _ := x.loadField(h, ref, fi).(*Term)
+				if arr == nil {
+					continue
+				}
+				for k := int64(0); k < u.Len(); k++ {
+					ek := fmt.Sprintf("%s.a%d", fkey, k)
+					if b.vals == nil {
+						b.want(ek, x.sel(arr, x.idx(k)))
+					} else if v, ok := b.intVal(ek, u.Elem()); ok && v.Sign() != 0 {
+						fmt.Fprintf(&b.decl, "\t%s[%d] = %s(%s)\n", flhs, k, typeStr(u.Elem(), b.pkg), v)
+					}
+				}
+			}
+		case *types.Pointer:
+			if isStruct(u.Elem()) && depth < 2 {
+				pr, _ := x.loadField(h, ref, fi).(*Term)
+				if pr == nil {
+					continue
+				}
+				if b.vals == nil {
+					b.want(fkey+".ref", pr)
+					b.structInit(fkey, "", pr, u.Elem(), h, depth+1)
+					continue
+				}
+				if v, ok := b.intVal(fkey+".ref", types.Typ[types.Int]); ok && v.Sign() != 0 {
+					b.nvar++
+					pv := fmt.Sprintf("o%d", b.nvar)
+					fmt.Fprintf(&b.decl, "\t%s := &%s{}\n", pv, typeStr(u.Elem(), b.pkg))
+					b.structInit(fkey, pv, pr, u.Elem(), h, depth+1)
+					fmt.Fprintf(&b.decl, "\t%s = %s\n", flhs, pv)
+				}
+			}
+		case *types.Interface, *types.Signature, *types.Map, *types.Chan:
+			t, _ := x.loadField(h, ref, fi).(*Term)
+			if t == nil {
+				continue
+			}
+			if b.vals == nil {
+				b.want(fkey+".ref", t)
+			} else if rv, ok := b.intVal(fkey+".ref", types.Typ[types.Int]); !ok || rv.Sign() != 0 {
+				b.ok = false
+				b.why = "field " + fkey + " is a non-nil interface/function value (no scripted collaborator)"
+			}
+		default:
+			if isBool(fi.T) || isIntType(fi.T) {
+				t, _ := x.loadField(h, ref, fi).(*Term)
+				if t == nil {
+					continue
+				}
+				e := b.scalarExpr(fkey, t, fi.T)
+				if b.vals != nil && e != "" && lhs != "" {
+					fmt.Fprintf(&b.decl, "\t%s = %s\n", flhs, e)
+				}
+			}
+		}
+	}
+}
+
+// paramExpr returns the Go expression for parameter i (phase 2) or registers terms (phase 1).
+func (b *replayBuilder) paramExpr(p *ssa.Parameter, v Value, h *Heap) string {
+	key := "arg." + p.Name()
+	t := p.Type()
+	switch u := t.Underlying().(type) {
+	case *types.Slice:
+		sv, ok := v.(SliceV)
+		if !ok {
+			return "nil"
+		}
+		return b.sliceExpr(key, sv, t, h)
+	case *types.Pointer:
+		ref, ok := v.(*Term)
+		if !ok {
+			return "nil"
+		}
+		if isStruct(u.Elem()) {
+			if b.vals == nil {
+				b.want(key+".ref", ref)
+				b.structInit(key, "", ref, u.Elem(), h, 0)
+				return ""
+			}
+			if rv, ok := b.intVal(key+".ref", types.Typ[types.Int]); ok && rv.Sign() == 0 {
+				return "nil"
+			}
+			b.nvar++
+			pv := fmt.Sprintf("o%d", b.nvar)
+			fmt.Fprintf(&b.decl, "\t%s := &%s{}\n", pv, typeStr(u.Elem(), b.pkg))
+			b.structInit(key, pv, ref, u.Elem(), h, 0)
+			return pv
+		}
+		if isScalar(u.Elem()) && (isBool(u.Elem()) || isIntType(u.Elem())) {
+			m := b.x.heapGet(h, "C."+elemKey(u.Elem()), b.x.fieldMapSort(u.Elem()))
+			e := b.scalarExpr(key+".val", b.x.sel(m, ref), u.Elem())
+			if b.vals == nil {
+				return ""
+			}
+			b.nvar++
+			pv := fmt.Sprintf("c%d", b.nvar)
+			fmt.Fprintf(&b.decl, "\t%s := new(%s)\n\t*%s = %s\n", pv, typeStr(u.Elem(), b.pkg), pv, e)
+			return pv
+		}
+		return "nil"
+	case *types.Struct:
+		sv, ok := v.(StructV)
+		if !ok {
+			b.ok = false
+			return ""
+		}
+		if b.vals == nil {
+			b.structInit(key, "", sv.Ref, t, h, 0)
+			return ""
+		}
+		b.nvar++
+		pv := fmt.Sprintf("v%d", b.nvar)
+		fmt.Fprintf(&b.decl, "\tvar %s %s\n", pv, typeStr(t, b.pkg))
+		b.structInit(key, pv, sv.Ref, t, h, 0)
+		return pv
+	case *types.Array:
+		if _, _, ok := intInfo(u.Elem()); ok && u.Len() <= replayElems {
+			arr, _ := v.(*Term)
+			if arr == nil {
+				return typeStr(t, b.pkg) + "{}"
+			}
+			var es []string
+			for k := int64(0); k < u.Len(); k++ {
+				ek := fmt.Sprintf("%s.a%d", key, k)
+				if b.vals == nil {
+					b.want(ek, b.x.sel(arr, b.x.idx(k)))
+				} else {
+					vv, ok := b.intVal(ek, u.Elem())
+					if !ok {
+						vv = big.NewInt(0)
+					}
+					es = append(es, vv.String())
+				}
+			}
+			return typeStr(t, b.pkg) + "{" + strings.Join(es, ", ") + "}"
+		}
+	case *types.Interface, *types.Signature, *types.Map, *types.Chan:
+		// needs a scripted collaborator: only a nil value can be rebuilt
+		ref, _ := v.(*Term)
+		if ref == nil {
+			b.ok = false
+			b.why = "parameter " + p.Name() + " is an interface/function value"
+			return ""
+		}
+		if b.vals == nil {
+			b.want(key+".ref", ref)
+			return ""
+		}
+		if rv, ok := b.intVal(key+".ref", types.Typ[types.Int]); !ok || rv.Sign() != 0 {
+			b.ok = false
+			b.why = "parameter " + p.Name() + " is a non-nil interface/function value (no scripted collaborator)"
+		}
+		return "nil"
+	}
+	if tt, ok := v.(*Term); ok && (isBool(t) || isIntType(t)) {
+		return b.scalarExpr(key, tt, t)
+	}
+	if isString(t) {
+		return `""`
+	}
+	b.ok = false
+	b.why = "parameter " + p.Name() + " of type " + t.String() + " cannot be rebuilt"
+	return ""
+}
+
+// ---------- contract clause -> Go ----------
+
+type goGen struct {
+	eng     *Engine
+	pkg     *types.Package
+	olds    []string // hoisted old() expressions
+	specFns map[string]bool
+	fail    string
+}
+
+func (g *goGen) expr(e *Expr, inOld bool) string {
+	if g.fail != "" {
+		return "false"
+	}
+	switch e.Kind {
+	case "num":
+		return e.Val.String()
+	case "str":
+		return fmt.Sprintf("%q", e.Name)
+	case "ident":
+		if strings.HasPrefix(e.Name, "$") {
+			g.fail = "ghost state " + e.Name
+			return "false"
+		}
+		return e.Name
+	case "unary":
+		return "(" + e.Name + g.expr(e.Args[0], inOld) + ")"
+	case "binary":
+		a, b := g.expr(e.Args[0], inOld), g.expr(e.Args[1], inOld)
+		switch e.Name {
+		case "==>":
+			return "(!(" + a + ") || (" + b + "))"
+		case "<==>":
+			return "((" + a + ") == (" + b + "))"
+		}
+		return "(" + a + " " + e.Name + " " + b + ")"
+	case "field":
+		if e.Args[0].Kind == "ident" && (stdPkgAlias[e.Args[0].Name] != "" && e.Args[0].Name != "h" && e.Args[0].Name != "r") {
+			return e.Args[0].Name + "." + e.Name
+		}
+		if strings.HasPrefix(e.Name, "$") {
+			g.fail = "ghost field " + e.Name
+			return "false"
+		}
+		return g.expr(e.Args[0], inOld) + "." + e.Name
+	case "index":
+		return g.expr(e.Args[0], inOld) + "[" + g.expr(e.Args[1], inOld) + "]"
+	case "slice":
+		s := g.expr(e.Args[0], inOld) + "["
+		if e.Args[1] != nil {
+			s += g.expr(e.Args[1], inOld)
+		}
+		s += ":"
+		if e.Args[2] != nil {
+			s += g.expr(e.Args[2], inOld)
+		}
+		return s + "]"
+	case "forall", "exists":
+		// only (lo <= i && i < hi) ==> body  /  lo <= i && i < hi && body
+		if len(e.Vars) != 1 {
+			g.fail = "multi-variable quantifier"
+			return "false"
+		}
+		v := e.Vars[0]
+		body := e.Args[0]
+		var guard, rest *Expr
+		if e.Kind == "forall" && body.Kind == "binary" && body.Name == "==>" {
+			guard, rest = body.Args[0], body.Args[1]
+		} else if e.Kind == "exists" && body.Kind == "binary" && body.Name == "&&" {
+			guard, rest = body.Args[0], body.Args[1]
+		} else {
+			g.fail = "quantifier shape"
+			return "false"
+		}
+		lo, hi, ok := rangeOf(guard, v.Name)
+		if !ok {
+			g.fail = "quantifier range"
+			return "false"
+		}
+		kind := "govcForall"
+		if e.Kind == "exists" {
+			kind = "govcExists"
+		}
+		return fmt.Sprintf("%s(int64(%s), int64(%s), func(q int64) bool { %s := %s(q); _ = %s; return %s })", kind, g.expr(lo, inOld), g.expr(hi, inOld), v.Name, v.Type, v.Name, g.expr(rest, inOld))
+	case "call":
+		callee := e.Args[0]
+		if callee.Kind != "ident" {
+			g.fail = "call target"
+			return "false"
+		}
+		name := callee.Name
+		args := e.Args[1:]
+		switch name {
+		case "old":
+			if inOld {
+				return g.expr(args[0], true)
+			}
+			g.olds = append(g.olds, g.expr(args[0], true))
+			return fmt.Sprintf("old%d", len(g.olds))
+		case "len", "cap", "min", "max":
+			var as []string
+			for _, a := range args {
+				as = append(as, g.expr(a, inOld))
+			}
+			return name + "(" + strings.Join(as, ", ") + ")"
+		case "ite":
+			return fmt.Sprintf("govcIte(%s, %s, %s)", g.expr(args[0], inOld), g.expr(args[1], inOld), g.expr(args[2], inOld))
+		case "fresh", "typeis", "arr", "off", "ref", "elems", "modsentinel", "implements", "unboxed":
+			g.fail = "builtin " + name
+			return "false"
+		}
+		if strings.HasPrefix(name, "uf_") || strings.HasPrefix(name, "ufb_") {
+			g.fail = "uninterpreted " + name
+			return "false"
+		}
+		if _, ok := basicByName[name]; ok {
+			return name + "(" + g.expr(args[0], inOld) + ")"
+		}
+		if fn, ok := g.eng.specs.Fns[name]; ok {
+			g.specFns[fn.Name] = true
+			var as []string
+			for i, a := range args {
+				ae := g.expr(a, inOld)
+				if i < len(fn.Params) {
+					if bt, ok := basicByName[fn.Params[i].Type]; ok && isIntType(bt) {
+						ae = fn.Params[i].Type + "(" + ae + ")"
+					}
+				}
+				as = append(as, ae)
+			}
+			return "spec_" + name + "(" + strings.Join(as, ", ") + ")"
+		}
+		g.fail = "unknown function " + name
+		return "false"
+	}
+	g.fail = "expression kind " + e.Kind
+	return "false"
+}
+
+// rangeOf recognises  lo <= v && v < hi  (also <=, giving hi+1).
+func rangeOf(g *Expr, v string) (lo, hi *Expr, ok bool) {
+	if g.Kind != "binary" || g.Name != "&&" {
+		return nil, nil, false
+	}
+	a, b := g.Args[0], g.Args[1]
+	if a.Kind == "binary" && a.Name == "&&" {
+		return nil, nil, false
+	}
+	if a.Kind != "binary" || b.Kind != "binary" {
+		return nil, nil, false
+	}
+	if a.Name == "<=" && a.Args[1].Kind == "ident" && a.Args[1].Name == v {
+		lo = a.Args[0]
+	} else {
+		return nil, nil, false
+	}
+	if b.Args[0].Kind == "ident" && b.Args[0].Name == v {
+		switch b.Name {
+		case "<":
+			hi = b.Args[1]
+		case "<=":
+			hi = &Expr{Kind: "binary", Name: "+", Args: []*Expr{b.Args[1], {Kind: "num", Val: big.NewInt(1)}}}
+		default:
+			return nil, nil, false
+		}
+		return lo, hi, true
+	}
+	return nil, nil, false
+}
+
+func (g *goGen) specFnSource() string {
+	var sb strings.Builder
+	done := map[string]bool{}
+	for {
+		progress := false
+		for _, name := range sortedKeys(g.specFns) {
+			if done[name] {
+				continue
+			}
+			done[name] = true
+			progress = true
+			fn := g.eng.specs.Fns[name]
+			var ps []string
+			for _, p := range fn.Params {
+				ps = append(ps, p.Name+" "+p.Type)
+			}
+			rt := fn.ResType
+			if rt == "" {
+				rt = "bool"
+			}
+			fmt.Fprintf(&sb, "func spec_%s(%s) %s { return %s }\n", name, strings.Join(ps, ", "), rt, g.expr(fn.Body, true))
+		}
+		if !progress {
+			break
+		}
+	}
+	return sb.String()
+}
+
+// ---------- driver ----------
+
+func tryReplay(eng *Engine, rep *obReport, dir string) replayResult {
+	ob := rep.Ob
+	x := ob.fn
+	if x == nil || x.entry == nil || ob.Result == nil || ob.Result.Status != "sat" {
+		return replayResult{false, "not attempted (no model)"}
+	}
+	fn := x.fn
+	if fn.Pkg == nil || !eng.inModule(fn) || fn.Parent() != nil {
+		return replayResult{false, "not attempted (function is not a package-level function of the module)"}
+	}
+	b := &replayBuilder{x: x, eng: eng, pkg: fn.Pkg.Pkg, ok: true}
+	h := x.entry.heap
+	// entry parameter values: re-create as in verifyBody (same names => same terms)
+	st := &State{pc: x.tb.True(), cells: map[*ssa.Alloc]Value{}, heap: &Heap{m: map[string]*Term{}, A: x.tb.Var("A$0", IntSort)}, ghost: map[string]*Term{}}
+	var pvals []Value
+	for i, p := range fn.Params {
+		pvals = append(pvals, x.paramValue(st, p, i == 0 && fn.Signature.Recv() != nil))
+	}
+	for i, p := range fn.Params {
+		b.paramExpr(p, pvals[i], h)
+	}
+	if !b.ok {
+		return replayResult{false, "not attempted (" + b.why + ")"}
+	}
+	// second solver call: original query plus equalities naming the wanted terms
+	asserts := x.relevantAxioms(ob.Asserts)
+	asserts = append(asserts, ob.Asserts...)
+	asserts = x.tb.instantiate(asserts, 2)
+	asserts = append(x.relevantAxioms(asserts), asserts...)
+	for i, r := range b.reqs {
+		gv := x.tb.Var(fmt.Sprintf("gv!%d", i), r.term.Sort)
+		asserts = append(asserts, x.tb.Eq(gv, r.term))
+	}
+	sr := Solve(x.tb.Script(asserts, true, "ALL"), 20, ob.Result.Solver)
+	if sr.Status != "sat" {
+		sr = Solve(x.tb.Script(asserts, true, "ALL"), 20, "")
+	}
+	if sr.Status != "sat" {
+		return replayResult{false, "model extraction query was not sat (" + sr.Status + ")"}
+	}
+	b.vals = map[string]string{}
+	for i, r := range b.reqs {
+		if v, ok := sr.Model[fmt.Sprintf("gv!%d", i)]; ok {
+			b.vals[r.name] = v
+		}
+	}
+	var args []string
+	for i, p := range fn.Params {
+		args = append(args, b.paramExpr(p, pvals[i], h))
+	}
+	if !b.ok {
+		return replayResult{false, "not attempted (" + b.why + ")"}
+	}
+	// the call
+	ctr := x.contract
+	gg := &goGen{eng: eng, pkg: fn.Pkg.Pkg, specFns: map[string]bool{}}
+	_, resNames := x.paramBindings(fn.Signature, nil, fn, nil)
+	var checks []string
+	var clauseSrc []string
+	for _, en := range append(append([]Clause{}, ctr.Ensures...), ctr.Checks...) {
+		save := *gg
+		gg.fail = ""
+		s := gg.expr(en.E, false)
+		if gg.fail != "" {
+			gg.olds = save.olds
+			gg.fail = ""
+			continue
+		}
+		checks = append(checks, s)
+		clauseSrc = append(clauseSrc, en.Src)
+	}
+	var src strings.Builder
+	fmt.Fprintf(&src, "//go:build go1.18\n\npackage %s\n\nimport (\n\t\"fmt\"\n\t\"io\"\n\t\"testing\"\n)\n\nvar _ = io.EOF\n\n", fn.Pkg.Pkg.Name())
+	src.WriteString("func govcIte[T any](c bool, a, b T) T { if c { return a }; return b }\n")
+	src.WriteString("func govcForall(lo, hi int64, f func(int64) bool) bool { for i := lo; i < hi && i < lo+4096; i++ { if !f(i) { return false } }; return true }\n")
+	src.WriteString("func govcExists(lo, hi int64, f func(int64) bool) bool { for i := lo; i < hi && i < lo+4096; i++ { if f(i) { return true } }; return false }\n")
+	specSrc := gg.specFnSource()
+	src.WriteString(specSrc)
+	src.WriteString("\nfunc TestGovcReplay(t *testing.T) {\n")
+	src.WriteString(b.decl.String())
+	// bind parameter names
+	for i, p := range fn.Params {
+		name := p.Name()
+		if name == "" || name == "_" {
+			name = fmt.Sprintf("arg%d", i)
+		}
+		fmt.Fprintf(&src, "\t%s := %s\n\t_ = %s\n", name, castNil(args[i], p.Type(), fn.Pkg.Pkg), name)
+	}
+	for i, o := range gg.olds {
+		fmt.Fprintf(&src, "\told%d := %s\n\t_ = old%d\n", i+1, o, i+1)
+	}
+	src.WriteString("\tdefer func() {\n\t\tif r := recover(); r != nil {\n\t\t\tfmt.Printf(\"GOVC-REPLAY: PANIC %v\\n\", r)\n\t\t}\n\t}()\n")
+	call := ""
+	var argNames []string
+	for i, p := range fn.Params {
+		name := p.Name()
+		if name == "" || name == "_" {
+			name = fmt.Sprintf("arg%d", i)
+		}
+		argNames = append(argNames, name)
+	}
+	if fn.Signature.Recv() != nil {
+		call = argNames[0] + "." + fn.Name() + "(" + strings.Join(argNames[1:], ", ") + ")"
+	} else {
+		call = fn.Name() + "(" + strings.Join(argNames, ", ") + ")"
+	}
+	if len(resNames) > 0 {
+		// avoid clashes between result and parameter names
+		var lhs []string
+		for _, rn := range resNames {
+			lhs = append(lhs, rn)
+		}
+		fmt.Fprintf(&src, "\tvar (\n")
+		for k, rn := range lhs {
+			fmt.Fprintf(&src, "\t\t%s %s\n", rn, typeStr(fn.Signature.Results().At(k).Type(), fn.Pkg.Pkg))
+		}
+		fmt.Fprintf(&src, "\t)\n\t%s = %s\n", strings.Join(lhs, ", "), call)
+		for _, rn := range lhs {
+			fmt.Fprintf(&src, "\t_ = %s\n", rn)
+		}
+		if len(lhs) == 1 {
+			fmt.Fprintf(&src, "\tresult := %s\n\t_ = result\n", lhs[0])
+		}
+	} else {
+		fmt.Fprintf(&src, "\t%s\n", call)
+	}
+	for i, c := range checks {
+		fmt.Fprintf(&src, "\tif !(%s) {\n\t\tfmt.Printf(\"GOVC-REPLAY: VIOLATED clause %%q\\n\", %q)\n\t}\n", c, clauseSrc[i])
+	}
+	src.WriteString("\tfmt.Println(\"GOVC-REPLAY: DONE\")\n}\n")
+
+	// write and run
+	pkgDir := filepath.Dir(eng.prog.Fset.Position(fn.Pos()).Filename)
+	testFile := filepath.Join(dir, sanitize(rep.Fn+"_"+ob.Name)+"_replay_test.go")
+	os.WriteFile(testFile, []byte(src.String()), 0644)
+	ov := map[string]map[string]string{"Replace": {filepath.Join(pkgDir, "zz_govc_replay_test.go"): testFile}}
+	ovData, _ := json.Marshal(ov)
+	ovFile := testFile + ".overlay.json"
+	os.WriteFile(ovFile, ovData, 0644)
+	ctx, cancel := context.WithTimeout(context.Background(), 90*time.Second)
+	defer cancel()
+	cmd := exec.CommandContext(ctx, "bash", "-c", fmt.Sprintf("ulimit -v 8000000; cd %q && go test -mod=mod -overlay %q -vet=off -v -count=1 -timeout 60s -run '^TestGovcReplay$' .", pkgDir, ovFile))
+	cmd.Env = append(os.Environ(), "GOFLAGS=-mod=mod", "GOPROXY=off", "GOSUMDB=off", "GOTOOLCHAIN=local")
+	var out bytes.Buffer
+	cmd.Stdout = &out
+	cmd.Stderr = &out
+	cmd.Run()
+	o := out.String()
+	var lines []string
+	for _, l := range strings.Split(o, "\n") {
+		if strings.HasPrefix(l, "GOVC-REPLAY:") {
+			lines = append(lines, l)
+		}
+	}
+	text := fmt.Sprintf("replay test: %s\ninput (from the model):\n%s\noutput:\n%s\n", testFile, b.decl.String()+"  args: "+strings.Join(args, ", "), strings.Join(lines, "\n"))
+	confirmed := false
+	for _, l := range lines {
+		if strings.Contains(l, "PANIC") {
+			switch ob.Kind {
+			case "bounds", "slice", "nil", "unreachable", "div", "assert-type", "makeslice":
+				confirmed = true
+			}
+		}
+		if strings.Contains(l, "VIOLATED") {
+			confirmed = true
+		}
+	}
+	if len(lines) == 0 {
+		text += "the replay test did not build or run:\n" + firstLines(o, 12) + "\n"
+	}
+	return replayResult{confirmed, text}
+}
+
+func castNil(e string, t types.Type, pkg *types.Package) string {
+	if e == "nil" {
+		return fmt.Sprintf("%s(nil)", "("+typeStr(t, pkg)+")")
+	}
+	return e
+}
+
+var _ = sort.Strings
